@@ -444,6 +444,7 @@ def run_case(acc, rnd, tier, case):
         shadow = Runner(it2, tmap, log=pr2.log)
         acc.count('runs_with_second_live_interpreter')
     backlog = []
+    cfg = set()         # the configuration as the returned MacroSteps say it is (entered minus exited), kept by the harness
     vstate = dict(v=0, entry={})
     occs = []         # (occurrence index, cid, kindtag, step number)
     k = 0
@@ -475,7 +476,14 @@ def run_case(acc, rnd, tier, case):
                               'charts only call probes)' % (k, type(r.last_error).__name__, str(r.last_error)[:200].replace('\n', ' ')), wit)
                 return
             break       # non-determinism etc.: not this property's business, the run stops here
-        msg, occ = check_grammar(ch, tr, sc, tmap, r.last_step, list(pr.log), it.configuration, vstate)
+        for ms in (r.last_step.steps if r.last_step is not None else []):
+            cfg.difference_update(ms.exited_states)
+            cfg.update(ms.entered_states)
+        if set(it.configuration) != cfg:
+            acc.violation('C08:trace-grammar', 'step %d: Interpreter.configuration says %r, the states entered and not exited according to '
+                          'the MacroSteps returned so far are %r' % (k, sorted(it.configuration), sorted(cfg)), dict(wit, step=k))
+            return
+        msg, occ = check_grammar(ch, tr, sc, tmap, r.last_step, list(pr.log), sorted(cfg), vstate)
         acc.count('grammar_steps_checked')
         acc.count('old_values_checked', sum(1 for x in occ if x[2] not in ('state.pre', 'trans.pre')))
         if msg:
